@@ -36,6 +36,10 @@ WellFormed == UNION {{[k |-> "ar", members |-> ms, gnu |-> g, bytes |-> RenderAr
                           g \in {x \in BOOLEAN : x => FitsGnu(ms)}, v \in (IF Len(ms) <= 1 THEN Vias ELSE {"bytes"})} : ms \in Models}
               \cup {[k |-> "ar", members |-> ms, gnu |-> FALSE, bytes |-> RenderAr(ms, FALSE), via |-> v] :
                           ms \in {<<Kind(DB, 1, FALSE), Kind(<<97>>, 2, FALSE)>>, <<Kind(<<97>>, 2, FALSE), Kind(DB, 1, FALSE)>>}, v \in Vias}
+              \* ten-digit timestamps at and beyond 2^32 (4294967296, 5656124762, 9999999999): decimal numbers of any width
+              \cup {[k |-> "ar", members |-> ms, gnu |-> FALSE, bytes |-> RenderAr(ms, FALSE), via |-> "bytes"] :
+                          ms \in {<<[Kind(<<97>>, 2, FALSE) EXCEPT !.mtime = t], Kind(<<98>>, 1, FALSE)>> :
+                                     t \in {<<52, 50, 57, 52, 57, 54, 55, 50, 57, 54>>, <<53, 54, 53, 54, 49, 50, 52, 55, 54, 50>>, <<57, 57, 57, 57, 57, 57, 57, 57, 57, 57>>}}}
               \* a member whose name begins with the byte that ends a header (LF), or is nothing but that byte, between others
               \cup {[k |-> "ar", members |-> ms, gnu |-> FALSE, bytes |-> RenderAr(ms, FALSE), via |-> "bytes"] :
                           ms \in {<<Kind(<<97>>, 2, FALSE), Kind(nm, n, FALSE), Kind(<<98>>, 1, FALSE)>> : nm \in {<<LF, 120>>, <<LF>>, <<120, LF>>}, n \in {0, 3}}}
@@ -44,7 +48,10 @@ WellFormed == UNION {{[k |-> "ar", members |-> ms, gnu |-> g, bytes |-> RenderAr
 SmallKinds == {Kind(nm, n, FALSE) : nm \in {<<97>>, DB}, n \in Sizes}
 Bases == IF Mode = "corrupt" THEN UNION {[1..k -> SmallKinds] : k \in 0..MaxMembers} ELSE {}
 Hostile == {<<45, 49>>, <<45, 54, 48>>, <<45, 54, 49>>, <<45, 54, 50>>, <<57, 57, 57, 57, 57, 57, 57, 57, 57, 57>>, <<>>,
-            <<49, 50, 120>>, <<43, 53>>, <<54, 48>>, <<45, 48>>}    \* -1 -60 -61 -62 9999999999 blank 12x +5 60 -0
+            <<49, 50, 120>>, <<43, 53>>, <<54, 48>>, <<45, 48>>,    \* -1 -60 -61 -62 9999999999 blank 12x +5 60 -0
+            \* sizes that are small numbers modulo 2^32: 4294967296 (0), 4294967297 (1), 4294967301 (5), 8589934594 (2)
+            <<52, 50, 57, 52, 57, 54, 55, 50, 57, 54>>, <<52, 50, 57, 52, 57, 54, 55, 50, 57, 55>>, <<52, 50, 57, 52, 57, 54, 55, 51, 48, 49>>,
+            <<56, 53, 56, 57, 57, 51, 52, 53, 57, 52>>}
 Cols == {ColName, ColMtime, ColUid, ColGid, ColMode, ColSize}
 MagicTexts == {<<BACKTICK, 120>>, <<120, LF>>, <<120, 120>>, <<LF, BACKTICK>>}
 CorruptVecs ==
@@ -67,6 +74,9 @@ SpecialKinds == {Kind(nm, n, FALSE) : nm \in SpecialNames, n \in {0, 3}}
 SpecialVecs == {[k |-> "arraw", bytes |-> RenderAr(ms, FALSE)] :
                    ms \in {<<a, b>> : a \in {Kind(<<SLASH, SLASH>>, 3, FALSE), Kind(<<SLASH>>, 3, FALSE), Kind(<<97>>, 3, FALSE)}, b \in SpecialKinds}
                           \cup {<<Kind(<<SLASH, SLASH>>, 3, FALSE), a, b>> : a \in SpecialKinds, b \in {Kind(nm, 0, FALSE) : nm \in SpecialNames}}}
-ASSUME Emit(CASE Mode = "wellformed" -> SetToSeq(WellFormed)
+\* members of 4 GiB and more (2^32, 2^32 + 5, 2^33 + 2, 9999999999 bytes), served by a sparse reader
+SparseVecs == {[k |-> "arsparse", size |-> sz] : sz \in {<<52, 50, 57, 52, 57, 54, 55, 50, 57, 54>>, <<52, 50, 57, 52, 57, 54, 55, 51, 48, 49>>,
+                                                         <<56, 53, 56, 57, 57, 51, 52, 53, 57, 52>>, <<57, 57, 57, 57, 57, 57, 57, 57, 57, 57>>}}
+ASSUME Emit(CASE Mode = "wellformed" -> SetToSeq(WellFormed) \o SetToSeq(SparseVecs)
               [] Mode = "corrupt" -> SetToSeq(CorruptVecs \cup TruncVecs \cup GlobalMagicVecs \cup SpecialVecs))
 =============================================================================
